@@ -30,6 +30,7 @@ type SeqCase struct {
 	Opt         r69.Options `json:"options"`
 	Indent      string      `json:"indent,omitempty"`
 	UseDefaults bool        `json:"use_package_defaults,omitempty"`
+	PkgLimit    int64       `json:"v5_package_default_copy_limit,omitempty"`
 }
 
 func opsToJ(ops []r69.Op) []OpJ {
@@ -78,7 +79,7 @@ func (r *seqRun) kase() SeqCase {
 		lib = "v4"
 	}
 	return SeqCase{Lib: lib, Doc: r.dtxt, Ops: opsToJ(r.ops), Patch: r69.PatchText(r.ops), Opt: r.opt,
-		UseDefaults: r.p.UseDefaults}
+		UseDefaults: r.p.UseDefaults, PkgLimit: r.p.PkgLimit}
 }
 
 func (r *seqRun) lastKind() string {
@@ -136,6 +137,9 @@ type seqProp struct {
 	Rule        string
 	// Filter says whether a sequence is worth running at all (property domain)
 	Filter func(ops []r69.Op) bool
+	// PkgLimit: value of the v5 package-level AccumulatedCopySizeLimit while the
+	// phase runs with explicit per-call options (which must take precedence)
+	PkgLimit int64
 }
 
 func (p *seqProp) alpha(level int) *AlphaCfg {
@@ -178,6 +182,10 @@ func runSeq(ctx *core.Ctx, p *seqProp) {
 			}
 		}
 		impl.SetGlobals(p.Legacy, p.UseDefaults, opt)
+		if p.PkgLimit != 0 && !p.Legacy && !p.UseDefaults {
+			impl.SetV5PackageLimit(p.PkgLimit)
+			defer impl.SetV5PackageLimit(0)
+		}
 		ctx.Parallel(len(units), func(w *core.Worker, i int) {
 			u := units[i]
 			var ops []r69.Op
